@@ -77,7 +77,7 @@ impl<'a> SectionsBuilder<'a> {
     }
 
     pub fn process_section(&mut self, range: Range, blocks: &DocumentBlocks) {
-        // section always starts with a header
+        // section always starts with a header (the text of a list item)
         // 1. append the header
         // 2. call process_blocks for the rest
 
@@ -85,10 +85,17 @@ impl<'a> SectionsBuilder<'a> {
             return;
         }
 
-        self.section_block(&blocks[range.start]);
+        let body = if starts_with_header(range.clone(), blocks) {
+            self.section_block(&blocks[range.start]);
+            range.start + 1..range.end
+        } else {
+            // a list item that does not start with text: a section without text holds all its blocks
+            self.builder.section(vec![]);
+            range
+        };
 
         let id = self.builder.id();
-        self.process_blocks(range.start + 1..range.end, blocks);
+        self.process_blocks(body, blocks);
         self.builder.set_id(id)
     }
 
@@ -246,6 +253,16 @@ fn ranges(positions: Vec<usize>, end: usize) -> Vec<Range> {
         ranges.push(positions[positions.len() - 1]..end);
     }
     ranges
+}
+
+/// The first block of a section is its header: a header or the text of a list item. A list item
+/// that consists of nothing but a list is merged into the enclosing list by `section_block`.
+fn starts_with_header(range: Range, content: &DocumentBlocks) -> bool {
+    match &content[range.start] {
+        Para(_) | Plain(_) | Header(_) | Div(_) => true,
+        BulletList(_) | OrderedList(_) => range.len() == 1,
+        _ => false,
+    }
 }
 
 pub fn first_header_level(range: Range, content: &DocumentBlocks) -> Option<u8> {
